@@ -198,7 +198,9 @@ def analyse_skeleton(I: Interp, pattern: Any, root_role: str = "instr") -> List[
 
     def thunk(I: Interp) -> Value:
         doc = {"pattern": pattern}
-        self_obj = Obj(y2r, {"loaded_file": lift_skeleton(I, doc), "macros_from_terminal_filepath": NONE})
+        docv = lift_skeleton(I, doc)
+        I.run.user["docv"] = docv
+        self_obj = Obj(y2r, {"loaded_file": docv, "macros_from_terminal_filepath": NONE})
         m1, m2 = y2r.find_method("_get_pattern"), y2r.find_method("_generate_rule_tree")
         if m1 is None or m2 is None:
             raise AnalysisError("anchor Yaml2Regex._get_pattern/_generate_rule_tree not found")
@@ -291,4 +293,6 @@ def analyse_skeleton(I: Interp, pattern: Any, root_role: str = "instr") -> List[
             n.equiv = eq  # type: ignore[attr-defined]
         out.append(Analysed(path, root, path.value, caps, flags))
         out[-1].census_tmpl = path.run.user.get("census_tmpl")  # type: ignore[attr-defined]
+        out[-1].input_after = repr(path.run.user.get("docv"))  # type: ignore[attr-defined]
+        out[-1].input_before = repr(lift_skeleton(I, {"pattern": pattern}))  # type: ignore[attr-defined]
     return out
